@@ -298,6 +298,8 @@ class Eraser:
         self.problems = []     # (role, detail)
         self.lets = []         # injected let name lists (per block)
         self.raw = {}          # temp name -> current (un-erased) defining expression
+        self.inj = []          # (span view, what, hook index or None): spans carried by injected nodes
+        self.seq_stack = []
 
     def erase(self, e):
         if isinstance(e, list):
@@ -369,6 +371,12 @@ class Eraser:
             return {'_t': 'Expr', '_v': 'OptChain', '_optchain_lowered': True}
         if inj is not None:
             assigns, last = inj
+            hook_idx_before = len(self.hooks)
+            mark = len(self.inj)
+            self.inj.append((payload(e)['span'], 'paren', None))
+            self.inj.append((payload(payload(e)['expr'])['span'], 'seq', None))
+            for x in payload(payload(e)['expr'])['exprs'][:-1]:
+                self.inj.append((payload(x)['span'], 'assign', None))
             for name, rhs in assigns:
                 self.raw[name] = rhs
                 sm = spread_materialisation(rhs)
@@ -378,7 +386,12 @@ class Eraser:
                 else:
                     self.env[name] = self.erase(rhs)
                     self.spread[name] = False
-            return self.erase(last)
+            r = self.erase(last)
+            # the wrapper belongs to the hook produced by `last` (the last hook recorded while erasing it)
+            owner = len(self.hooks) - 1 if len(self.hooks) > hook_idx_before else None
+            for i in range(mark, mark + 2 + len(assigns)):
+                self.inj[i] = (self.inj[i][0], self.inj[i][1], owner)
+            return r
         if k == 'Assign':
             r = self.erase_add_assign(e)
             if r is not None:
@@ -392,6 +405,12 @@ class Eraser:
             R = args[0]['expr']
             Re = self.erase_result(R)
             self.hooks.append({'name': name, 'R': R, 'A': args[1:], 'R_erased': Re, 'span': payload(e)['span']})
+            hi = len(self.hooks) - 1
+            callee = payload(e)['callee']['_0']
+            self.inj.append((payload(e)['span'], 'hook-call', hi))
+            self.inj.append((payload(callee)['span'], 'hook-callee', hi))
+            self.inj.append((payload(payload(callee)['obj'])['span'], 'hook-namespace', hi))
+            self.inj.append((payload(callee)['prop']['_0']['span'], 'hook-name', hi))
             return Re
         return {kk: self.erase(v) for kk, v in e.items()}
 
@@ -1507,4 +1526,47 @@ def check_C01(in_view, out_view):
                 continue
             seen.add((r, str(cond)))
             out.append(Violation('C01', r, cond, detail))
+    return out
+
+
+# ------------------------------------------------------------------ C09(a): span discipline
+
+def spans_in(v, acc):
+    if isinstance(v, (list, tuple)):
+        for x in v:
+            spans_in(x, acc)
+        return
+    if not isinstance(v, dict) or is_lazy(v):
+        return
+    if v.get('_t') == 'Span':
+        acc.add(span_key(v))
+        return
+    for x in v.values():
+        spans_in(x, acc)
+
+
+def check_C09_spans(in_view, out_view, er):
+    """(1) every span in the output is a span of the input or the dummy span; (2) the nodes injected for a hook carry the
+    dummy span or a span taken from the expression they instrument (never a span from elsewhere in the file)"""
+    out = []
+    sin = set()
+    spans_in(in_view, sin)
+    sout = set()
+    spans_in(out_view, sout)
+    dummy = ('0', '0')
+    foreign = [s for s in sout if s not in sin and s != dummy and not (s[0].startswith('70'))]
+    if foreign:
+        out.append(Violation('C09', 'span/not-from-the-input', True, 'spans %s do not occur in the input' % (sorted(foreign)[:3],)))
+    for sp, what, hi in er.inj:
+        k = span_key(sp)
+        if k == dummy:
+            continue
+        if hi is None:
+            continue
+        allowed = set()
+        spans_in(er.hooks[hi]['R_erased'], allowed)
+        # `x += y`: the synthesized addition carries the span of the assignment it replaces
+        allowed.add(span_key(er.hooks[hi]['span']))
+        if k not in allowed:
+            out.append(Violation('C09', 'span/injected-%s-span-from-elsewhere' % what, True, 'injected %s node carries span %s, the instrumented expression has %s' % (what, k, sorted(allowed)[:4])))
     return out
